@@ -23,10 +23,19 @@ Definition gen_constants_ok : Prop :=
   sol_path_suffixes = [".txt"; ".out"] /\ sol_path_infixes = ["\"; "/"] /\
   (* the layout chosen by the tool (multiline=None): multi-line as soon as hashes or URLs are written -
      the one-line layout has no place for a URL that the reader could find again *)
-  (forall hashes urls, w_default_multi hashes urls = hashes || urls).
+  (forall hashes urls, w_default_multi hashes urls = hashes || urls) /\
+  (* _add_sources applies the pin before it links the requirers: a project listed among its own requirers (a
+     self-referential extra) then finds its real metadata, and the edge P -> P[extras] is kept on it *)
+  l_pin_before_requirers = true.
 
 Lemma gen_constants_hold : gen_constants_ok.
 Proof. unfold gen_constants_ok. repeat split; try reflexivity. intros [] []; reflexivity. Qed.
+
+(* a self-edge is an edge like any other for the model: it is read back with its extras and activating extra *)
+Example self_edge_kept :
+  edges [mkPin "Frame" "2.4.0" None None [mkVia "Frame" ["all"] "" ["io"; "viz"]; mkVia "requirements.txt" [] ">=2" ["all"]]]
+  = [("frame", "Frame", ["io"; "viz"], "", ["all"])].
+Proof. reflexivity. Qed.
 
 Lemma default_multi_rule hashes urls : w_default_multi hashes urls = hashes || urls.
 Proof. destruct hashes, urls; reflexivity. Qed.
